@@ -73,6 +73,10 @@ pub fn run(ctx: &Ctx) {
     // RFC 7914 / production parameter sets, deterministically
     let fixed: Vec<Case> = vec![Case { seed: 1, pw_len: 0, salt_len: 0, log_n: 4, r: 1, p: 1, dk_len: 64 }, Case { seed: 2, pw_len: 8, salt_len: 4, log_n: 10, r: 8, p: 16, dk_len: 64 }, Case { seed: 3, pw_len: 13, salt_len: 14, log_n: 14, r: 8, p: 1, dk_len: 64 }, Case { seed: 4, pw_len: 7, salt_len: 32, log_n: 15, r: 8, p: 1, dk_len: 32 }, Case { seed: 5, pw_len: 100, salt_len: 32, log_n: 15, r: 8, p: 1, dk_len: 32 }, Case { seed: 6, pw_len: 5, salt_len: 5, log_n: 15, r: 16, p: 2, dk_len: 200 }];
     ctx.sse_vec("fixed_parameter_sets", "RFC 7914 parameter sets and kestrel's production parameters (32768, 8, 1)", fixed.clone(), check);
+    // state must not leak between calls: after a call that was refused (panic on dkLen = 0 / N not a power of two), valid calls still give the RFC value
+    ctx.sse_vec("valid_call_after_refused_call", "scrypt with invalid parameters (caught panic) followed by the fixed parameter sets", vec![Case { seed: 11, pw_len: 3, salt_len: 3, log_n: 3, r: 1, p: 1, dk_len: 16 }, Case { seed: 12, pw_len: 9, salt_len: 0, log_n: 5, r: 2, p: 2, dk_len: 40 }], |c: &Case| {
+        for bad in 0..3 { let _ = crate::core::guard(|| match bad { 0 => kc::scrypt(b"x", b"y", 16, 1, 1, 0), 1 => kc::scrypt(b"x", b"y", 6, 1, 1, 8), _ => kc::scrypt(b"x", b"y", 16, 0, 1, 8) }); }
+        check(c) });
     // batch through OpenSSL and the C driver
     let nb = ctx.n(400, 6_000) as usize;
     let mut runner = proptest::test_runner::TestRunner::new_with_rng(Default::default(), proptest::test_runner::TestRng::from_seed(proptest::test_runner::RngAlgorithm::ChaCha, &ctx.derive_seed("batch", 0)));
